@@ -166,5 +166,11 @@ theorem docLines_utf8_unlines (ls : List Str) (h : ∀ l ∈ ls, '\n' ∉ l ∧ 
   intro l _
   exact decodeLine_utf8 l
 
+/-- the drivers' "has a line the scanner refuses" is the byte-level predicate of the repaired
+    scanner: a line of more than `maxLineSize = 65535` bytes, whatever ends it -/
+theorem tooLong_eq_firstLong (doc : List UInt8) : Driver.tooLong doc = Go.firstLong doc := by
+  unfold Driver.tooLong Go.firstLong Go.maxLineSize
+  congr 1
+
 end SRTDoc
 end Astisub
